@@ -18,7 +18,7 @@ from .. import env
 
 PROPERTY_ID = "C13"
 TECHNIQUE = ("explicit-state model checking on the real object: breadth-first search over the "
-             "concrete states (digest of the whole __dict__) reachable through an alphabet of ~60 "
+             "concrete states (digest of the whole __dict__) reachable through an alphabet of ~80 "
              "operations, run to fixpoint; differential oracle: every transition's result equals "
              "the same call on a freshly built grouping")
 RULE = ("case = one seed (key array x key representation x sort); states = distinct digests of "
@@ -163,6 +163,25 @@ def alphabet(n, full=True):
     for dt, op, mk in (("i4", "min", False), ("i4", "last", False), ("u1", "max", False), ("b", "min", False),
                        ("i4", "min", "bool"), ("u1", "last", "bool")):
         A.append((f"{op}:{dt}" + ("@bool" if mk else ""), narrow(dt, op), mk))
+    # failing calls are calls too: a call that raises (misaligned values / mask, a user function that
+    # fails half-way) must leave the grouping as usable as a fresh one
+    def _boom(x):
+        if len(x) and np.nanmax(x) > 3:
+            raise ValueError("user function failed")
+        return x.sum()
+    fails = {
+        "sum:badlen": lambda g, c, raw, GB: g.sum(np.arange(c.n + 1.0)),
+        "sum_t:badlen": lambda g, c, raw, GB: g.sum(np.arange(c.n + 1.0), transform=True),
+        "cumsum:badmask": lambda g, c, raw, GB: g.cumsum(np.arange(float(c.n)), mask=np.ones(c.n + 1, dtype=bool)),
+        "median:badlen": lambda g, c, raw, GB: g.median(np.arange(c.n - 1.0)),
+        "apply:raises": lambda g, c, raw, GB: g.apply(np.arange(float(c.n)), _boom),
+        "apply_t:raises": lambda g, c, raw, GB: g.apply(np.arange(float(c.n)), _boom, transform=True),
+        "sum:strings": lambda g, c, raw, GB: g.sum(np.array(["a"] * c.n, dtype=object)),
+        "head:badlen": lambda g, c, raw, GB: g.head(np.arange(c.n + 2.0), 1, keep_input_index=True),
+        "rolling_sum:badlen": lambda g, c, raw, GB: g.rolling_sum(np.arange(c.n + 1.0), window=2),
+    }
+    for name, f in fails.items():
+        A.append((name, f, False))
     A.append(("has_null_keys", lambda g, c, raw, GB: g.has_null_keys, False))
     A.append(("ikey_count", lambda g, c, raw, GB: pd.Series(g.ikey_count), False))
     A.append(("count_ikey@bool", lambda g, c, raw, GB: pd.Series(g.count_ikey(mask=c.M)), "bool"))
@@ -207,7 +226,7 @@ REDUCED = {  # one mutator per class of successor state + the observers that rea
     "sum", "median", "sum_t", "median_t", "groups", "cumsum", "head1", "rolling_sum_g", "ema_alpha",
     "sum@bool", "first@bool", "size@slice", "sum@pos", "last_t", "cumsum@bool", "median@bool",
     "rolling_sum", "count_ikey@bool", "min:i4@bool", "size", "copy:last_t", "first@slice",
-    "last:u1@bool",
+    "last:u1@bool", "sum_t:badlen", "cumsum:badmask", "apply_t:raises", "median:badlen",
 }
 
 
